@@ -452,6 +452,29 @@ fn expression_ops(req: &Value) -> Value {
            "simplified_memory_references": simplified.memory_references().map(|r| json!([r.name, r.index])).collect::<Vec<_>>()})
 }
 
+/// BasicBlock::as_schedule_seconds (calibrations expanded first) of every block, with the default handler.
+fn block_schedule(req: &Value) -> Value {
+    use quil_rs::instruction::DefaultHandler;
+    use quil_rs::program::analysis::ControlFlowGraph;
+    let program = match Program::from_str(req["program"].as_str().unwrap()) {
+        Ok(p) => p,
+        Err(e) => return json!({"input_error": format!("{e:?}")}),
+    };
+    let cfg = ControlFlowGraph::from(&program);
+    let mut blocks = vec![];
+    for b in cfg.into_blocks() {
+        let body: Vec<Value> = b.instructions().iter().map(|i| dbg(*i)).collect();
+        blocks.push(match b.as_schedule_seconds(&program, &DefaultHandler) {
+            Ok(s) => {
+                let items: Vec<Value> = s.items().iter().map(|it| json!([it.instruction_index, bits(it.time_span.start_time().0), bits(it.time_span.duration().0)])).collect();
+                json!({"ok": {"items": items, "duration": bits(s.duration().0)}, "body": body})
+            }
+            Err(e) => json!({"err": format!("{e:?}"), "body": body}),
+        });
+    }
+    json!({"blocks": blocks})
+}
+
 /// Call::resolve_arguments of every CALL in the body against the program's declarations and extern signatures.
 fn call_resolve(req: &Value) -> Value {
     use quil_rs::instruction::ExternSignatureMap;
@@ -641,6 +664,7 @@ pub fn run(op: &str, req: &Value) -> Value {
         "expand_defgate_sequences" => expand_defgate_sequences(req),
         "gate_depth" => gate_depth(req),
         "call_resolve" => call_resolve(req),
+        "block_schedule" => block_schedule(req),
         "expression_ops" => expression_ops(req),
         "roles" => roles(req),
         "schedule_graph" => schedule_graph(req),
